@@ -69,6 +69,17 @@ class ZeroThisYearTz(tzinfo):
         return "ZERO-NOW"
 
 
+_fold_tzs = {}
+
+
+def fold_tz(o0, o1):
+    """one tzinfo OBJECT per zone (as zoneinfo gives): the two readings of a repeated hour differ only in `fold`, and two
+    datetimes with the same tzinfo object compare equal when their wall-clock fields do"""
+    if (o0, o1) not in _fold_tzs:
+        _fold_tzs[(o0, o1)] = FoldTz(o0, o1)
+    return _fold_tzs[(o0, o1)]
+
+
 def build_ts(rep, d, s, us, off):
     tz = timezone(timedelta(minutes=off))
     local = datetime(1970, 1, 1, tzinfo=tz) + timedelta(days=d, seconds=s, microseconds=us)
@@ -77,9 +88,9 @@ def build_ts(rep, d, s, us, off):
     if rep == "dtzero":       # only meaningful for offset 0: an aware datetime in a non-UTC zone that is at +00:00 at that instant
         return local.replace(tzinfo=ZeroThisYearTz(local.year))
     if rep == "dtfold1":      # second occurrence of the wall-clock time: the offset that applies is `off`
-        return local.replace(tzinfo=FoldTz(min(off + 60, 1439), off), fold=1)
+        return local.replace(tzinfo=fold_tz(min(off + 60, 1439), off), fold=1)
     if rep == "dtfold0":      # first occurrence
-        return local.replace(tzinfo=FoldTz(off, max(off - 60, -1439)), fold=0)
+        return local.replace(tzinfo=fold_tz(off, max(off - 60, -1439)), fold=0)
     if rep == "iso":
         ts = local.isoformat()
         if us % 100000 == 0 and us:
@@ -104,6 +115,9 @@ def one(case):
     setcase = case[11] if len(case) > 11 else None
     rep, d, s, us, off, dkind, dneg, ds, dus, data, eid = case[:11]
     ts = build_ts(rep, d, s, us, off)
+    if rep in ("dtfold1", "dtfold0") and (d + s) % 2 == 0:
+        # the OTHER reading of the same wall-clock time in the same zone was seen by the library just before
+        Event(timestamp=ts.replace(fold=1 - ts.fold), duration=0, data={})
     sign = -1 if dneg else 1
     if dkind == "int":
         dur = sign * ds
